@@ -67,4 +67,40 @@ theorem refines_SplitMergeInfo : Refines (Src.SplitMergeInfo false) splitMergeIn
 theorem refines_SigPubKey : Refines (Src.SigPubKey false) sigPubKey view_SigPubKey := by
   tlb_refine [sigPubKey, Src.SigPubKey, view_SigPubKey]
 
+theorem refines_AccStatusChange : Refines (Src.AccStatusChange false) accStatusChange view_AccStatusChange := by
+  tlb_refine [accStatusChange, accStatusChangeAlts, Src.AccStatusChange, view_AccStatusChange]
+
+theorem refines_ComputeSkipReason : Refines (Src.ComputeSkipReason false) computeSkipReason view_ComputeSkipReason := by
+  tlb_refine [computeSkipReason, computeSkipReasonAlts, Src.ComputeSkipReason, view_ComputeSkipReason]
+
+theorem refines_TrStoragePhase : Refines (Src.TrStoragePhase false) trStoragePhase view_TrStoragePhase := by
+  tlb_refine [trStoragePhase, Src.TrStoragePhase, view_TrStoragePhase, refines_AccStatusChange.keep]
+
+theorem refines_TrComputePhase : Refines (Src.TrComputePhase false) trComputePhase view_TrComputePhase := by
+  tlb_refine [trComputePhase, trComputePhaseAlts, Src.TrComputePhase, view_TrComputePhase, refines_ComputeSkipReason.keep]
+
+theorem refines_TrBouncePhase : Refines (Src.TrBouncePhase false) trBouncePhase view_TrBouncePhase := by
+  tlb_refine [trBouncePhase, trBouncePhaseAlts, Src.TrBouncePhase, view_TrBouncePhase, refines_StorageUsedShort.keep]
+
+theorem refines_FutureSplitMerge : Refines (Src.FutureSplitMerge false) futureSplitMerge view_FutureSplitMerge := by
+  tlb_refine [futureSplitMerge, futureSplitMergeAlts, Src.FutureSplitMerge, view_FutureSplitMerge]
+
+theorem refines_IntermediateAddress :
+    Refines (Src.IntermediateAddress false) intermediateAddress view_IntermediateAddress := by
+  tlb_refine [intermediateAddress, intermediateAddressAlts, Src.IntermediateAddress, view_IntermediateAddress]
+
+theorem refines_ValidatorDescr : Refines (Src.ValidatorDescr false) validatorDescr view_ValidatorDescr := by
+  tlb_refine [validatorDescr, validatorDescrAlts, Src.ValidatorDescr, view_ValidatorDescr, refines_SigPubKey.keep]
+
+theorem refines_CatchainConfig : Refines (Src.CatchainConfig false) catchainConfig view_CatchainConfig := by
+  tlb_refine [catchainConfig, catchainConfigAlts, Src.CatchainConfig, view_CatchainConfig]
+
+theorem refines_BlkPrevInfo0 :
+    Refines (fun s => Src.BlkPrevInfo false s (.int 0)) (blkPrevInfo 0) view_BlkPrevInfo := by
+  tlb_refine [blkPrevInfo, Src.BlkPrevInfo, view_BlkPrevInfo, refines_ExtBlkRef.keep]
+
+theorem refines_BlkPrevInfo1 :
+    Refines (fun s => Src.BlkPrevInfo false s (.int 1)) (blkPrevInfo 1) view_BlkPrevInfo := by
+  tlb_refine [blkPrevInfo, Src.BlkPrevInfo, view_BlkPrevInfo, refines_ExtBlkRef.keep]
+
 end TonVerif.Tlb
